@@ -226,6 +226,12 @@ fn build_builder(path: String, field: &Field) -> Result<ArrayBuilder> {
             let Some(values_field) = entries_field.get(1) else {
                 fail!("Missing values field for map");
             };
+            if entries_field.len() != 2 {
+                fail!(
+                    "Map entries must have exactly two fields (keys and values), found {}",
+                    entries_field.len()
+                );
+            }
             let keys_path = format!(
                 "{path}.{entries_name}.{keys__name}",
                 entries_name = ChildName(&entry_field.name),
